@@ -499,12 +499,33 @@ func c23Reducers(r *vkit.Run, rg *vkit.Rand, s c23Series) {
 			sign = -1
 		}
 		var xs []float64
+		type tx struct {
+			t int64
+			x float64
+		}
+		var txs []tx
 		stored := map[c22OutKey]int{}
 		for _, p := range pv {
 			x, _ := c22Num(p.V)
 			xs = append(xs, sign*x)
+			txs = append(txs, tx{p.T, sign * x})
 			stored[c22OutKey{p.T, c22ValCell(p.V)}]++
 		}
+		// documented tie-break: of equal values the earliest point is returned
+		sort.SliceStable(txs, func(i, j int) bool {
+			if txs[i].x != txs[j].x {
+				return txs[i].x > txs[j].x
+			}
+			return txs[i].t < txs[j].t
+		})
+		if len(txs) > n {
+			txs = txs[:n]
+		}
+		var wantTX, gotTX []string
+		for _, p := range txs {
+			wantTX = append(wantTX, fmt.Sprintf("%d:%v", p.t, p.x))
+		}
+		sort.Strings(wantTX)
 		sort.Sort(sort.Reverse(sort.Float64Slice(xs)))
 		if len(xs) > n {
 			xs = xs[:n]
@@ -524,10 +545,14 @@ func c23Reducers(r *vkit.Run, rg *vkit.Rand, s c23Series) {
 				x = float64(g.C.I)
 			}
 			gx = append(gx, sign*x)
+			gotTX = append(gotTX, fmt.Sprintf("%d:%v", g.T, sign*x))
 		}
 		sort.Float64s(gx)
+		sort.Strings(gotTX)
 		if !ok || fmt.Sprint(gx) != fmt.Sprint(xs) {
 			fail(fn, fmt.Sprintf("the %d extreme stored points (sign-normalised values %v)", n, xs), c23FmtOuts(got))
+		} else if fmt.Sprint(gotTX) != fmt.Sprint(wantTX) {
+			fail(fn+"_tie", fmt.Sprintf("the %d extreme stored points, ties on the value going to the earliest point: (time:sign-normalised value) %v", n, wantTX), c23FmtOuts(got))
 		}
 	}
 }
